@@ -261,6 +261,26 @@ def evaluate(case):
         raise Violation("operator-commutes-with-relabelling", op, f"{desc}: phi(result) differs from the default-basis result"
                         + (" (taken w.r.t. phi(pss) = -pss)" if op in PSS_RELATIVE and phi.s_pss < 0 else "") + f": {why}",
                         phi_of_custom=kd.show(got), default=kd.show(exp))
+    # the same through a compiled (registered) function on the custom-basis algebra
+    if op not in FLOATY and op not in ("inv", "div", "sw", "proj", "outertan", "outerexp", "outersin", "outercos") and len(ka) <= 8 \
+            and (kb is None or len(kb) <= 8) and d <= 4:
+        grades_ = case.get("grades")
+        if yc is not None:
+            def f_reg(a, b, _op=op, _g=grades_):
+                return _apply(_op, a, b, _g)
+            args_ = (xc, yc)
+        else:
+            def f_reg(a, _op=op, _g=grades_):
+                return _apply(_op, a, None, _g)
+            args_ = (xc,)
+        rr = _observe(lambda: kd.to_dict(algc.register(f_reg)(*args_), op=op))
+        if rr[0] != "ok":
+            raise Violation("operator-commutes-with-relabelling", op, f"{desc}: inside a registered function raised {rr[1]}", exc="raise-mismatch")
+        ok, why = kd.elem_equal(phi.elem(rr[1]), exp)
+        if not ok:
+            raise Violation("operator-commutes-with-relabelling", op, f"{desc}, inside a registered function: phi(result) differs from the "
+                            f"default-basis result: {why}", phi_of_custom=kd.show(phi.elem(rr[1])), default=kd.show(exp))
+        counters["checked:registered"] = 1
     labels.append(f"op:{op}")
     key = [cfg["sig"], cfg.get("basis"), op, ka, kb, case.get("grades")]
     return Info((phi.odd or phi.reordered) and bool(clean(exp)), labels, key, counters)
